@@ -48,7 +48,7 @@ var Mutants = []Mutant{
 	{ID: "nilret-assign-value", Props: []string{"C03"}, Rule: "R-NILRET", File: "pkg/parser/parser.go", Find: "\tvalue := p.parseTopLevelExpr()\n\tif value == nil {\n\t\tp.advancePastNL()\n\t\treturn nil\n\t}\n\tif !target.Type().accepts", Replace: "\tvalue := p.parseTopLevelExpr()\n\tif !target.Type().accepts", Expect: "parseAssignmentStatement#use-of", Describe: "nil value dereferenced in assignment"},
 	{ID: "funcsig-nil", Props: []string{"C03"}, Rule: "R-NILRET", File: "pkg/parser/parser.go", Find: "\t\tif fd == nil {\n\t\t\tcontinue // previous error\n\t\t}\n", Replace: "", Expect: "parseFuncSignatures#use-of", Describe: "nil signature dereferenced"},
 	{ID: "scopetype-param", Props: []string{"C03"}, Rule: "R-SCOPETYPE", File: "pkg/parser/parser.go", Find: "\t\tif param.Type() == nil {\n\t\t\tcontinue // previous error: invalid type\n\t\t}\n\t\tp.validateVarDecl(param, param.token, true /* allowUnderscore */)\n\t\tp.scope.set(param.Name, param)", Replace: "\t\tp.validateVarDecl(param, param.token, true /* allowUnderscore */)\n\t\tp.scope.set(param.Name, param)", Expect: "addParamsToScope#scope.set", Describe: "parameter with nil type enters the scope"},
-	{ID: "fixed-slice", Props: []string{"C03", "C04"}, Rule: "R-FIXED", File: "pkg/parser/expression.go", Find: "T: fixedType(left.Type())}", Replace: "T: left.Type()}", Expect: "parseSlice#new-SliceExpression", Describe: "slice expression keeps a convertible type"},
+	{ID: "fixed-slice", Props: []string{"C03", "C04"}, Rule: "R-FIXED", File: "pkg/parser/expression.go", Find: "T: fixedType(left.Type().infer())}", Replace: "T: left.Type().infer()}", Expect: "parseSlice#new-SliceExpression", Describe: "slice expression keeps a convertible type"},
 	{ID: "fixed-decl", Props: []string{"C04"}, Rule: "R-FIXED", File: "pkg/parser/parser.go", Find: "\tdecl.Var.T = fixedType(v)\n", Replace: "\tdecl.Var.T = v\n", Expect: "parseTypedDecl#new-Var", Describe: "declared variable keeps a convertible type"},
 	{ID: "accept-no-wrap", Props: []string{"C04", "C02"}, Rule: "R-ACCEPTWRAP", File: "pkg/parser/parser.go", Find: "\t} else {\n\t\tvalue = wrapAny(value, target.Type())\n\t}\n\tp.assertEOL()", Replace: "\t}\n\tp.assertEOL()", Expect: "parseAssignmentStatement#accepts", Describe: "assignment does not wrap the accepted value"},
 	{ID: "maplit-type-go-order", Props: []string{"C04", "C08"}, Rule: "R-MAPRANGE", File: "pkg/parser/expression.go", Find: "\tfor _, key := range mapLit.Order {\n\t\ttypes = append(types, mapLit.Pairs[key].Type())\n\t}", Replace: "\tfor _, n := range mapLit.Pairs {\n\t\ttypes = append(types, n.Type())\n\t}", Expect: "parseMapLiteral#maprange", Describe: "map literal type inferred in Go map order"},
@@ -58,6 +58,8 @@ var Mutants = []Mutant{
 	{ID: "unknown-func-no-skip", Props: []string{"C03"}, Rule: "R-PROGRESS", File: "pkg/parser/parser.go", Find: "\t\tp.appendError(fmt.Sprintf(\"unknown function %q\", p.cur.Literal))\n\t\tp.advancePastNL()\n\t\treturn nil", Replace: "\t\tp.appendError(fmt.Sprintf(\"unknown function %q\", p.cur.Literal))\n\t\treturn nil", Expect: "#loop[1]:progress", Describe: "an unknown function name is reported for ever"},
 	{ID: "pos-reset-in-statement", Props: []string{"C03"}, Rule: "R-PROGRESS", File: "pkg/parser/parser.go", Find: "\tp.appendError(\"unexpected input \" + p.cur.Format())\n\tp.advancePastNL()\n\treturn nil", Replace: "\tp.appendError(\"unexpected input \" + p.cur.Format())\n\tp.advanceTo(p.pos)\n\tp.advancePastNL()\n\treturn nil", Expect: "parseStatement#reposition", Describe: "the position is reset from inside the statement loop"},
 	{ID: "range-extra-args-dropped", Props: []string{"C05", "C04", "C06"}, Rule: "R-LISTUSE", File: "pkg/parser/parser.go", Find: "\tif len(nodes) > 1 && t.Name != NUM {\n\t\tp.appendError(\"range with more than one argument must be num, found \" + t.String())\n\t\treturn nil\n\t}\n", Replace: "", Expect: "parseForStatement#list", Describe: "extra operands after a string/array/map range are accepted and dropped"},
+	{ID: "slice-type-not-inferred", Props: []string{"C03", "C04"}, Rule: "R-CONCRETE", File: "pkg/parser/expression.go", Find: "T: fixedType(left.Type().infer())}", Replace: "T: fixedType(left.Type())}", Expect: "parseSlice#fixed-is-concrete", Describe: "[[]][:1] keeps the open type of the empty literal and is fixed"},
+	{ID: "unary-operand-type", Props: []string{"C03"}, Rule: "R-CONCRETE", File: "pkg/parser/ast.go", Find: "\tif u.Op == OP_BANG {\n\t\treturn BOOL_TYPE\n\t}\n\treturn NUM_TYPE // OP_MINUS", Replace: "\treturn u.Right.Type()", Expect: "(*UnaryExpression).Type#returns-own-type", Describe: "-[] carries the untyped empty array type into wrapAny"},
 	// C05 / C06
 	{ID: "break-no-eol", Props: []string{"C05", "C06"}, Rule: "R-EOLSTATE", File: "pkg/parser/parser.go", Find: "\tp.advance() // advance past BREAK token\n\tp.assertEOL()\n", Replace: "\tp.advance() // advance past BREAK token\n", Expect: "parseBreakStatement#skip", Describe: "text after break is skipped"},
 	{ID: "if-end-no-eol", Props: []string{"C05", "C06"}, Rule: "R-EOLSTATE", File: "pkg/parser/parser.go", Find: "\tp.assertEnd()\n\tp.advance()\n\tp.assertEOL()\n\tp.recordComment(ifStmt)", Replace: "\tp.assertEnd()\n\tp.advance()\n\tp.recordComment(ifStmt)", Expect: "parseIfStatement#skip", Describe: "text after the end of an if is skipped"},
